@@ -51,7 +51,7 @@ PyExact == {"py/none", "py/bool", "py/str", "py/unicode", "py/bytes", "py/int", 
             "py/complex", "py/list", "py/tuple", "py/dict"}
 PyPrefix == {"py/name:", "py/module:", "py/object:", "py/object/new:", "py/object/apply:"}
 ObjBases == {"py/module:", "py/object:", "py/object/new:", "py/object/apply:"}   \* the object-construction tags of C04
-LookAlike == {"py/name", "py/", "py/objectx:", "py/object/applyx:", "lpy/object/apply:", "unknown", "local"}
+LookAlike == {"py/name", "py/", "py/objectx:", "py/object/applyx:", "lpy/object/apply:", "unknown", "local", "localpct"}
 WithName(b) == b \in PyPrefix \cup {"py/objectx:", "py/object/applyx:", "lpy/object/apply:"}
 
 Y == "tag:yaml.org,2002:"
@@ -74,6 +74,7 @@ Tok(b) ==
     [] b = "py/object/applyx:" -> <<Y, "python/", "object", "/", "apply", "x", ":">>
     [] b = "lpy/object/apply:" -> <<"!", "python/", "object", "/", "apply", ":">>
     [] b = "local" -> <<"!", "foo">>
+    [] b = "localpct" -> <<"!", "foo", "%", "s">>          \* a local tag with a literal '%' in it
     [] OTHER -> <<"X", b>>                               \* a live-table tag unknown to this module
 IsPrefixTok(p, s) == Len(p) <= Len(s) /\ \A i \in 1 .. Len(p) : p[i] = s[i]
 TagTok(t) == IF t.n \in {"-", "e"} THEN Tok(t.b) ELSE Append(Tok(t.b), t.n)
@@ -191,13 +192,14 @@ ScalarOf(c, h, nd, fn) ==
 \* find_python_name / find_python_module (constructor.py:525-563); unsafe = UnsafeConstructor
 \* name classes whose module is in sys.modules: a function, a class, a missing attribute, an attribute served by the
 \* module's __getattr__, a builtin, an existing ITERATOR instance, a not yet imported SUBMODULE of an imported package
-Imported == {"res", "rescls", "noattr", "lazy", "builtin", "iter", "subunimp"}
+\* "pct": a name with a literal '%' (written as the URI escape %25): an attribute that does not exist
+Imported == {"res", "rescls", "noattr", "lazy", "builtin", "iter", "subunimp", "pct"}
 FindName(n, unsafe) ==
   IF n = "e" THEN Err({})
   ELSE LET ie == IF unsafe /\ n \notin Imported THEN {"import"} ELSE {} IN
        IF n = "missing" THEN Err(ie)
        ELSE IF n \notin Imported /\ ~unsafe THEN Err({})
-       ELSE IF n = "noattr" THEN Err(ie \cup {"modgetattr"})
+       ELSE IF n \in {"noattr", "pct"} THEN Err(ie \cup {"modgetattr"})
        ELSE IF n = "subunimp" THEN Err(ie)              \* hasattr(package, 'plugin') is false: nothing is imported
        ELSE Ok({"attr"}, "attr", ie \cup {"getattr"} \cup (IF n = "lazy" THEN {"modgetattr"} ELSE {}))
 
